@@ -1,3 +1,4 @@
+import Generated.ConvertTables
 import Generated.Colors
 import Generated.Latex
 import Generated.Constants
